@@ -126,7 +126,24 @@ class _Complement(ast.NodeTransformer):
                         return n
 
                 return R().visit(clone_ast(v.elt))
+        # {k: f(k) for k in S}[e] -> f(e): a table built over its own keys, read at one key
+        if isinstance(v, ast.DictComp) and len(v.generators) == 1 and not v.generators[0].ifs and isinstance(v.generators[0].target, ast.Name) and isinstance(v.key, ast.Name) and v.key.id == v.generators[0].target.id and not isinstance(node.slice, (ast.Slice, ast.Tuple)):
+            from engine.util import clone_ast
+
+            tv = v.generators[0].target.id
+            idx = node.slice
+
+            class R2(ast.NodeTransformer):
+                def visit_Name(s_, n):
+                    if n.id == tv and isinstance(n.ctx, ast.Load):
+                        return clone_ast(idx)
+                    return n
+
+            return self.visit_Subscript_like(R2().visit(clone_ast(v.value)))
         return node
+
+    def visit_Subscript_like(self, x):
+        return x
 
     def visit_JoinedStr(self, node):
         self.generic_visit(node)
